@@ -6,6 +6,7 @@
 \*   NODE2     processes calling through node n2      CLOCAL  TRUE: claim key routed to the node-local cache tier
 \*   SAME      activators submitting as a1's listen client   RECLAIM  design variant idempotent re-claim
 \*   RESET     design variant reset-on-failed-update   TICK  time may pass (< code lifetime)   SHORT  design variant short claim TTL
+\*   RESETC    design variant reset-on-failed-create   RELSCOPE  "fail" (as is) | "holder" | "loser" | "always": who deletes the claim key
 \*   VIEW      view (exhaustive) | gview (generation: ghosts hidden, hist hidden)
 CONSTANTS
   Acts = @@ACTS@@
@@ -21,6 +22,8 @@ CONSTANTS
   SameAs = @@SAME@@
   Reclaim = @@RECLAIM@@
   ResetOnFail = @@RESET@@
+  ResetCreate = @@RESETC@@
+  RelScope = @@RELSCOPE@@
   CanTick = @@TICK@@
   ShortClaim = @@SHORT@@
   Emit = @@EMIT@@
